@@ -249,3 +249,78 @@ def program(r):
     if r.random() < 0.35:
         return grammar_program(r), "grammar"
     return family_program(r)
+
+
+# ------------------------------------------------------------------------------------------- second wave of families
+# (kept in a separate list with separate corpus seeds so that the first corpus stays byte-identical)
+
+def fam_shadow(r):
+    name = r.choice(["limit", "total", "maxRetries", "cfg_val", "Mixed_name"])
+    return (f"{name} = {r.randint(5, 12)}\n\n\ndef f(x, y):\n    {name} = {r.randint(0, 4)}\n    out = [v for v in range(x + 2) if v < {name}]\n"
+            f"    return out, {name}\n\n\ndef g(z):\n    return z + {name}\n\n\nprint({name}, g(1))\n")
+
+
+def fam_handover(r):
+    k = r.randint(2, 9)
+    names = [f"v{i}" for i in range(k)]
+    lines = [f"    {names[0]} = x * {r.randint(2, 5)} + y"] + [f"    {names[i]} = {names[i - 1]}" for i in range(1, k)]
+    return "def f(x, y):\n" + "\n".join(lines) + f"\n    return {names[-1]}\n"
+
+
+def fam_kwonly_shadow(r):
+    name = r.choice(["maxRetries", "timeOut", "someVal"])
+    return (f"{name} = 5\n\n\ndef connect(host, *, {name}=3):\n    return f'{{host}}:{{{name}}}'\n\n\ndef f(x, y):\n    return connect('a'), connect('b', {name}=x), {name} + y\n")
+
+
+def fam_global_nonlocal(r):
+    return ("counterVal = 0\n\n\ndef bump(n):\n    global counterVal\n    counterVal = counterVal + n\n    return counterVal\n\n\n"
+            "def f(x, y):\n    def inner():\n        nonlocal y\n        y = y + 1\n        return y\n    return bump(x), inner(), inner()\n")
+
+
+def fam_if_else_exit(r):
+    return (f"def f(x, y):\n    if {cond(r, ['x', 'y'])}:\n        a = x + 1\n        b = a * 2\n        print(a, b)\n        return {r.randint(0, 1)}\n    else:\n"
+            f"        with open_ctx():\n            if {cond(r, ['y'])}:\n                return {r.randint(0, 1)}\n            return 2\n").replace(
+                "with open_ctx():", "for _ in [0]:")
+
+
+def fam_star_import(r):
+    return ("from string import *\nfrom math import *\n\n\ndef f(x, y):\n    return ascii_lowercase[x % 5], floor(sqrt(abs(y) + 1)), digits[:2]\n")
+
+
+def fam_collection_literal(r):
+    return (f"def f(x, y):\n    vals = [x, {r.randint(0, 3)}]\n    vals.append(y)\n    vals.extend([{r.randint(4, 6)}, x])\n    s = {{1, x}}\n    s.add(y)\n    s.update((7, 8))\n    return vals, sorted(s)\n")
+
+
+def fam_inline_mutation(r):
+    mut = r.choice(["queue.append(100)", "queue[0] = 50", "del queue[0]", "queue.pop()", "queue.clear()", "queue.extend([7])", "pass"])
+    return (f"def f(x, y):\n    queue = [1, 2, 3, x]\n    doubled = [v * 2 for v in queue]\n    {mut}\n    return sum(doubled), len(queue)\n")
+
+
+def fam_duplicate_preserved(r):
+    return ("def area_tile(w, h):\n    size = w * h\n    return size + 1\n\n\ndef areaTile(a, b):\n    total = a * b\n    return total + 1\n\n\n"
+            "def f(x, y):\n    return area_tile(x, y), areaTile(y, x)\n")
+
+
+def fam_overused_constant(r):
+    c1 = "'" + "a-long-literal-number-one-" + str(r.randint(0, 9)) + "'"
+    c2 = str(10 ** 21 + r.randint(0, 99))
+    body = "\n".join(f"    out.append(({c1}, {c2} % {i + 2}))" for i in range(6))
+    return f"def f(x, y):\n    out = []\n{body}\n    return out[x % 6]\n"
+
+
+def fam_elif_named(r):
+    return ("elif_hits = {'a': 1}\nelif_hits['b'] = 2\n\n\ndef f(x, y):\n    return sorted(elif_hits), x\n")
+
+
+def fam_fstring_units(r):
+    unit = r.choice(["ms", "kb", "x"])
+    return (f"unit = '{unit}'\n\n\ndef f(x, y):\n    label = 'parse'\n    return f\"{{label}}: {{x}}{unit}\", unit, \"it's\"\n")
+
+
+FAMILIES2 = [fam_shadow, fam_handover, fam_kwonly_shadow, fam_global_nonlocal, fam_if_else_exit, fam_star_import, fam_collection_literal,
+             fam_inline_mutation, fam_duplicate_preserved, fam_overused_constant, fam_elif_named, fam_fstring_units]
+
+
+def program2(r):
+    fam = r.choice(FAMILIES2)
+    return fam(r) + HARNESS, fam.__name__
